@@ -54,6 +54,10 @@ class UnixSocketSession(Session):
         self._closing.set()
         self._socket.close()
         self._connected = False
+        # Wait for the session thread to finish: no listener is called once
+        # close() has returned (as SSHSession.close does)
+        while self.is_alive() and (self is not threading.current_thread()):
+            self.join(10)
 
     def connect(self, path=None, timeout=DEFAULT_TIMEOUT):
         sock = socket.socket(AF_UNIX, SOCK_STREAM)
